@@ -299,3 +299,39 @@ Proof.
   destruct env; [constructor|]. constructor; [|constructor]. unfold entry_text. cbn [fst snd].
   apply inline_app; [repeat constructor|]. apply inline_app; [repeat constructor|apply inline_value].
 Qed.
+
+(* ---------- what is left out because it equals the format default comes back from the format default ---------- *)
+Lemma keep_oor : forall (A : Type) (eqb : A -> A -> bool), (forall x y, eqb x y = true -> x = y) ->
+  forall a b : option A, oor (keep eqb a b) b = oor a b.
+Proof.
+  intros A eqb H a b. unfold keep. destruct a as [x|], b as [y|]; cbn [oeqb]; try reflexivity.
+  destruct (eqb x y) eqn:E; [|reflexivity]. rewrite (H x y E). reflexivity.
+Qed.
+Lemma pair_eqb_eq : forall a b, pair_eqb a b = true -> a = b.
+Proof. intros [a1 a2] [b1 b2] H. unfold pair_eqb in H. cbn [fst snd] in H. f_equal; lia. Qed.
+Lemma oeqb_text : forall a b : option (list N), oeqb text_eqb a b = true -> a = b.
+Proof. intros [a|] [b|] H; cbn in H; try discriminate; [|reflexivity]. f_equal. apply text_eqb_eq. exact H. Qed.
+Lemma wait_eqb_eq : forall a b, wait_eqb a b = true -> a = b.
+Proof.
+  intros [a1 a2] [b1 b2] H. unfold wait_eqb in H. cbn [fst snd] in H. apply andb_true_iff in H. destruct H as [H1 H2].
+  f_equal; [apply pair_eqb_eq; exact H1|apply oeqb_text; exact H2].
+Qed.
+Lemma filter_all : forall (A : Type) (f : A -> bool) l, (forall x, f x = true) -> filter f l = l.
+Proof. intros A f l H. induction l as [|x l IH]; [reflexivity|]. cbn [filter]. rewrite H, IH. reflexivity. Qed.
+
+Theorem ydiff_restores : forall c d, y_env d = [] -> ywith_defaults (ydiff c d) d = ywith_defaults c d.
+Proof.
+  intros [os kc to de sk sa wa env] [os' kc' to' de' sk' sa' wa' env'] He. cbn [y_env] in He. subst env'.
+  unfold ydiff, ywith_defaults. cbn [y_os y_kc y_to y_de y_sk y_sa y_wa y_env].
+  rewrite (keep_oor N N.eqb) by (intros x y H; lia).
+  rewrite !(keep_oor bool Bool.eqb) by (intros x y H; apply Bool.eqb_prop; exact H).
+  rewrite (keep_oor _ pair_eqb pair_eqb_eq).
+  rewrite (keep_oor Z Z.eqb) by (intros x y H; lia).
+  rewrite (keep_oor _ wait_eqb wait_eqb_eq).
+  cbn [filter app]. f_equal.
+  destruct (env_eqb env []) eqn:E.
+  - (* equal to the empty environment: it is empty *)
+    destruct env as [|[k v] r]; [reflexivity|]. exfalso. unfold env_eqb in E. cbn [app forallb fst env_get] in E.
+    rewrite text_eqb_refl' in E. cbn in E. discriminate.
+  - apply filter_all. intros kv. reflexivity.
+Qed.
